@@ -35,7 +35,7 @@ PROPS = {
         "not_decided": "single ownership of sectors, no orphans, chain length vs stream size, sibling-tree order and colouring: invariants over the contents of FAT and directory across histories",
     },
     "C07": {
-        "rules": [rules_entry.reloc, rules_entry.hstore, rules_own.make("C07"), rules_struct.cutoff, rules_entry.moveall, rules_struct.unlink("C07"), rules_struct.blankown("C07"), rules_struct.linkkeep("C07"), rules_follow.make("R-MARK", "C07"), rules_struct.freshid, rules_entry.fieldown("C07"), rules_follow.make("R-FREEREBUILD", "C07"), rules_struct.handon("C07"), rules_struct.slotid("C07"), rules_struct.parenttype("C07"), rules_wt.reverse("C07"), rules_struct.kindguard("C07"), rules_own.stateset("C07")],
+        "rules": [rules_entry.reloc, rules_entry.hstore, rules_own.make("C07"), rules_struct.cutoff, rules_entry.moveall, rules_struct.unlink("C07"), rules_struct.blankown("C07"), rules_struct.linkkeep("C07"), rules_follow.make("R-MARK", "C07"), rules_struct.freshid, rules_entry.fieldown("C07"), rules_follow.make("R-FREEREBUILD", "C07"), rules_struct.handon("C07"), rules_struct.slotid("C07"), rules_struct.parenttype("C07"), rules_wt.reverse("C07"), rules_struct.kindguard("C07"), rules_own.stateset("C07"), rules_entry.entrykeep("C07"), rules_follow.make("R-WBENTRY", "C07")],
         "explanation": "A handle is bound to its stream only by a slot index, so: R-RELOC - every whole-entry store into the directory table takes a freshly constructed entry (DirEntry::new/unallocated/empty_root_entry/read_from by provenance), never a copy of another slot, and no Vec reordering is applied to the table; "
                        "R-HSTORE - all DirEntry field stores reachable (call graph) from Stream methods are confined to start_sector/stream_len, no structural directory operation is reachable from a handle, and with_dir_entry_mut is applied to the handle's own stream_id; R-OWN - FAT/MiniFAT cells, sector (re)initialisation and the free lists change only inside the allocator's protocol functions with the protocol's argument shapes (a sector taken outside the protocol could be handed to two chains, so that a write through one handle lands in another stream).",
         "not_decided": "that the bytes of other streams are untouched (sector ownership is value-level); validity of a handle after its own stream is removed",
@@ -355,6 +355,13 @@ _ADDED13 = {
     "C18": " R-WRITTEN (see C06).",
 }
 for _pid, _txt in _ADDED13.items():
+    PROPS[_pid]["explanation"] = PROPS[_pid]["explanation"] + _txt
+
+_ADDED14 = {
+    "C07": " R-ENTRYKEEP: Directory::with_dir_entry_mut / with_root_dir_entry_mut never assign a whole DirEntry into the table (no roll-back to an entry whose chain the caller has already freed). R-WBENTRY also runs for this property (an elided entry write leaves the file's entry pointing at a chain that another stream is given after a retry).",
+    "C16": " R-WHOLE also requires that a table read from a chain (the MiniFAT) is read as long as the chain is, not capped by what the root entry says. A deviation row names the free marker as the head of the DIFAT chain in the header (defect D25): refused under strict validation, normalised only under permissive validation.",
+}
+for _pid, _txt in _ADDED14.items():
     PROPS[_pid]["explanation"] = PROPS[_pid]["explanation"] + _txt
 
 
